@@ -34,7 +34,7 @@ impl Suite for CrashSuite {
     }
     fn generate(&self, seed: u64, tier: &str) -> Vec<Case> {
         let mut r = Rng::new(seed ^ 0xC09);
-        let n = if tier == "thorough" { 160 } else { 14 };
+        let n = if tier == "thorough" { 120 } else { 10 };
         let mut cases = vec![];
         for i in 0..n {
             let with_restart = i % 2 == 0;
@@ -42,7 +42,7 @@ impl Suite for CrashSuite {
                 factors: if with_restart { &[1, 4, 999] } else { &[0, 1, 4] },
                 restarts: with_restart,
                 evicts: false,
-                max_ops: 7,
+                max_ops: 6,
                 ..fam("crash")
             };
             let mut rr = r.fork(i as u64);
@@ -53,6 +53,7 @@ impl Suite for CrashSuite {
             let mut tv = vec![Sx::a("truncate")];
             tv.extend(trunc.into_iter().map(Sx::int));
             items.push(Sx::l(tv));
+            items.push(Sx::l(vec![Sx::a("cap"), Sx::int(if tier == "thorough" { 100000 } else { 40 })]));
             cases.push(Case { class, input: Sx::l(items) });
         }
         cases
